@@ -168,6 +168,10 @@ impl ElementMap for TransformerContext {
     }
 
     fn get_element_size(&self, el: &SvgElement) -> Result<Option<Size>> {
+        if el.name == "reuse" {
+            // not yet instantiated; see element_bbox_inner()
+            return Err(SvgdxError::MissingBoundingBox(el.to_string()));
+        }
         let target_el = el.get_target_element(self)?;
         if target_el.has_unresolved_geometry() {
             // registered but not yet resolved; see SvgElement::bbox_raw()
@@ -193,6 +197,12 @@ impl TransformerContext {
                 depth,
                 self.config.depth_limit,
             ));
+        }
+        if el.name == "reuse" {
+            // A `<reuse>` is replaced (under the same id) by its instance once it
+            // has been processed; until then where the instance will end up isn't
+            // known, so anything positioned relative to it must be retried later.
+            return Err(SvgdxError::MissingBoundingBox(el.to_string()));
         }
         let target_el = el.get_target_element(self)?;
         let mut el_bbox = target_el.bbox()?;
